@@ -10,13 +10,21 @@ arbitrary bytes): every kind x plain / authenticated / encrypted x source of the
 block built by SPSDK's XMCD class from its own template, header of the kind + random bytes).  The round-trip clause (ParseBackOK)
 demands that SPSDK's parser recovers a DCD / XMCD segment at the place and of the size the ROM read, with the same header fields and
 bytes, and that the parsed container exports to the image it was parsed from.
+
+HISTORIES (spec/C07/HabHist.tla): the property speaks of every image SPSDK builds, also of the second and third image one Python
+process builds.  HabGen emits histories of 2..3 builds from two projects "a" / "b" - two PKI trees with the same file names and
+different keys (keys/hab/<tree>, keys/hab/<tree>_b), each with its own configuration directory = search path - whose
+configurations name keys and certificates by the same relative strings.  run_hist builds a history in ONE process; the executor
+walks every image with the context of ITS project; the history is one trace (images separated by NextBuild events) that
+HabRomTrace judges image by image, each against its own inputs, from fresh ROM registers.
 """
 import hashlib
 import json
 import os
 import struct
 
-from lib import hab_keys, tlc
+from lib import hab_twins as hab_keys  # same interface as lib.hab_keys, knows the twin trees (<tree>_b: same file names, other keys)
+from lib import tlc
 from lib.common import Machinery, import_spsdk, rng, say, scratch, seed
 from lib.par import pmap
 from lib.verdict import Verdict
@@ -315,7 +323,17 @@ def concretise(c, wd):
     def sec(name, **kw):
         sections.append({"section_id": SEC[name], "options": [{k: v} for k, v in kw.items()], "commands": []})
 
-    tree, src, fast = c["tree"], c["src"], c["fast"]
+    # project of the build: "a" = the tree, "b" = its twin (same file names, other keys).  naming "rel": keys and certificates are
+    # named relative to the configuration directory (../keys/<name>_key.pem, ../crts/<name>_crt.pem - the project directory holds a
+    # copy of its PKI tree, as CST leaves it) and resolved through the search path; otherwise by absolute paths
+    tree, src, fast = hab_keys.of_project(c["tree"], c.get("proj", "a")), c["src"], c["fast"]
+    rel = c.get("naming", "abs") == "rel"
+    if rel and flags != "plain":
+        hab_keys.install_project(c["tree"], c.get("proj", "a"), os.path.dirname(wd))
+
+    def crt_ref(name):
+        return f"../crts/{name}_crt.pem" if rel else hab_keys.crt_path(tree, name)
+
     ver = int(c["ver"].replace(".", ""), 16)
     inp = {"start": lim(start), "ivtOff": ivt_off, "ils": ils, "appLen": len(app), "flags": flags, "cfgKind": c["cfg"],
            "cfgLen": len(cfg_bytes), "entry": lim(entry), "ver": ver, "nSrk": c["nSrk"], "srcIdx": src, "fast": fast,
@@ -337,7 +355,7 @@ def concretise(c, wd):
         sec("InstallSRK", InstallSRK_Table="srk_table.bin", InstallSRK_SourceIndex=src)
 
         def keyopts(prefix, name):
-            kp = hab_keys.key_path(tree, name)
+            kp = f"../keys/{name}_key.pem" if rel else hab_keys.key_path(tree, name)
             if c["keyvar"] == "pk":
                 return {prefix + "_PrivateKeyFile": kp}
             if c["keyvar"] == "sp":
@@ -345,15 +363,15 @@ def concretise(c, wd):
             return {}
 
         if fast:
-            sec("InstallNOCAK", InstallNOCAK_File=hab_keys.crt_path(tree, srk), InstallNOCAK_CertificateFormat="x509")
+            sec("InstallNOCAK", InstallNOCAK_File=crt_ref(srk), InstallNOCAK_CertificateFormat="x509")
             sec("AuthenticateCSF", **keyopts("AuthenticateCsf", srk))
             ctx["csfk_der"] = ctx["imgk_der"] = ctx["srk_der"]
             img_name = srk
         else:
             csfk, imgk = hab_keys.leaf_name(tree, "CSF", src + 1), hab_keys.leaf_name(tree, "IMG", src + 1)
-            sec("InstallCSFK", InstallCSFK_File=hab_keys.crt_path(tree, csfk), InstallCSFK_CertificateFormat="x509")
+            sec("InstallCSFK", InstallCSFK_File=crt_ref(csfk), InstallCSFK_CertificateFormat="x509")
             sec("AuthenticateCSF", **keyopts("AuthenticateCsf", csfk))
-            sec("InstallKey", InstallKey_File=hab_keys.crt_path(tree, imgk), InstallKey_VerificationIndex=0, InstallKey_TargetIndex=c["tgt"])
+            sec("InstallKey", InstallKey_File=crt_ref(imgk), InstallKey_VerificationIndex=0, InstallKey_TargetIndex=c["tgt"])
             ctx["csfk_der"], ctx["imgk_der"] = pem_to_der(hab_keys.crt_path(tree, csfk)), pem_to_der(hab_keys.crt_path(tree, imgk))
             img_name = imgk
         eng2 = r.choice(["ANY", "DCP", "CAAM"])
@@ -860,6 +878,48 @@ def run_case(arg):
     return out
 
 
+def run_hist(h):
+    """One HISTORY (HabGen!Hist) end to end, in THIS process: the builds one after the other through HabContainer.load_from_config,
+    every image walked by the executor with the context of its own project.  One trace: the ROM walks joined by NextBuild events,
+    `inps` = the inputs of every build.  A build that fails ends the history there (its BuildFailed event has no action)."""
+    base = os.path.join(scratch(), "c07", f"hist-{h['hid']}-{h['rep']}")
+    tid = f"h{h['hid']}r{h['rep']}"
+    ev, inps, metas = [], [], []
+    for i, c in enumerate(h["builds"]):
+        wd = os.path.join(base, c["proj"], f"cfg{c['pos']}")   # <history>/<project>/{crts,keys,cfg1,cfg2..}
+        if i:
+            ev.append({"ev": "NextBuild", "idx": i + 1, "proj": c["proj"]})
+        try:
+            ctx = concretise(c, wd)
+        except Machinery:
+            raise
+        except Exception as x:  # noqa: BLE001 - as in run_case
+            inps.append({"flags": c["flags"], "waive": []})
+            metas.append({"case": c, "cfg_cls": c["cfg"], "family": None})
+            ev.append({"ev": "BuildFailed", "exc": type(x).__name__, "msg": "preparing the SRK table: " + str(x)[:160]})
+            break
+        inps.append(ctx["inp"])
+        metas.append({"case": c, "cfg_cls": ctx["cfg_cls"], "family": ctx["family"], "xmcd_src": ctx["xmcd_src"]})
+        try:
+            d = build(ctx)
+        except Exception as x:  # noqa: BLE001 - a refused / crashed build of a valid configuration is an observation
+            ev.append({"ev": "BuildFailed", "exc": type(x).__name__, "msg": str(x)[:200]})
+            break
+        ev += execute(d, ctx)[0]
+    # the trace carries the inputs of every build that was started (a failed build ends it: BuildFailed is rejected by the spec)
+    hist = {k: v for k, v in h.items() if k != "builds"}
+    return [{"id": tid, "inps": inps, "ev": ev, "meta": {"hist": h, "builds": metas, "case": dict(h["builds"][0], hist=hist)}}]
+
+
+def run_item(item):
+    return run_hist(item[1]) if item[0] == "h" else run_case(item[1])
+
+
+def build_of(t, matched):
+    """Index of the build of history trace t the event number `matched` belongs to."""
+    return sum(1 for e in t["ev"][:matched + 1] if e["ev"] == "NextBuild")
+
+
 # A golden image of the repository's test data that a ROM would NOT accept: its SRK table holds the keys in the order SRK3, SRK1, SRK2,
 # SRK4, Install SRK selects index 0 (SRK3), but both signatures were made with SRK1 (table index 1) - the CMS signatures verify under
 # entry 1 only.  It is kept as a NEGATIVE anchor: the automaton must reject it, and at this step.
@@ -919,10 +979,12 @@ def gen_cases(tier):
     r = tlc.run("C07", "HabGen", workers=1 if tier == "quick" else 4, env=env, timeout=600, heap="4g")
     if r.violated:
         raise Machinery(f"HabGen: {r.violated}")
-    cases = sorted(r.json_prints(), key=lambda c: c["id"])
-    if len(cases) != r.distinct or len(cases) < 100:
-        raise Machinery(f"GEN emitted {len(cases)} cases for {r.distinct} states")
-    return cases, r
+    out = r.json_prints()
+    cases = sorted((c for c in out if "builds" not in c), key=lambda c: c["id"])
+    hists = sorted((c for c in out if "builds" in c), key=lambda c: c["hid"])
+    if len(cases) + len(hists) != r.distinct or len(cases) < 100:
+        raise Machinery(f"GEN emitted {len(cases)} cases + {len(hists)} histories for {r.distinct} states")
+    return cases, hists, r
 
 
 def hint(e):
@@ -940,6 +1002,14 @@ def hint(e):
 
 def finding_key(t, matched):
     m = t["meta"]
+    if "hist" in m:  # a history: the key of the build the rejected step belongs to + its place in the history
+        h = m["hist"]
+        k = min(build_of(t, min(matched, len(t["ev"]) - 1)), len(m["builds"]) - 1)
+        e = t["ev"][matched] if matched < len(t["ev"]) else {"ev": "end"}
+        if e["ev"] in ("NextBuild", "end"):
+            return f"C07/{h['builds'][k]['flags']}/{e['ev']}/history/{'-'.join(h['shape'])}@{k + 1}-{h['tree']}-{h['keyvar']}"
+        one = {"meta": m["builds"][k], "ev": [e]}
+        return finding_key(one, 0) + f"/hist-{'-'.join(h['shape'])}@{k + 1}-{h['keyvar']}"
     c = m["case"]
     e = t["ev"][matched] if matched < len(t["ev"]) else {"ev": "end"}
     name = e["ev"]
@@ -1054,14 +1124,55 @@ def canary_batch(traces, anchors):
     # hand-written traces for the DCD step: the smallest legal DCD (header only) and one with a command of every kind, HAB 4.0 header
     for cmds in ([], [{"tag": 0xCC, "len": 12}, {"tag": 0xC0, "len": 4}, {"tag": 0xCF, "len": 16}, {"tag": 0xB2, "len": 8}]):
         groups.append((f"canary/dcd-{len(cmds)}cmds", synthetic_dcd_trace(cmds), True, DCD_CANARY_FIELDS))
-    cands = [t for t in traces if t["inp"]["flags"] == "auth" and t["inp"]["cfgKind"] == "dcd" and t["ev"][-1]["ev"] == "ParseBack"
+    cands = [t for t in traces if "inp" in t and t["inp"]["flags"] == "auth" and t["inp"]["cfgKind"] == "dcd" and t["ev"][-1]["ev"] == "ParseBack"
              and t["ev"][-1].get("ok") and "/t/" not in t["id"]][:3]
     for k, t in enumerate(cands):
         groups.append((f"canary/run{k}", {"id": f"canary/run{k}/good", "inp": dict(t["inp"], waive=[]), "ev": t["ev"], "meta": {}}, False, CANARY_FIELDS))
     batch = []
     for prefix, g, _must, fields in groups:
         batch += [g] + corrupt(g, prefix, fields)
-    return batch, groups
+    hb, hg = history_canary(anchors)
+    return batch + hb, groups + hg
+
+
+def history_canary(anchors):
+    """Known-good HISTORY written from two different golden images (NXP's tool chain, different SRK tables / certificates): the walk
+    over the first, NextBuild, the walk over the second, judged against the inputs of the first resp. the second.  Must be accepted;
+    rejected must be: the same events judged against the inputs in the other order (every image against the material of the OTHER
+    project), a second image whose CMS signature does not verify under its installed certificate / whose certificate is not the
+    configured one / whose SRK table is not the one of the reported fuse value, a wrong build index, a missing second image, a second
+    image without the NextBuild event, a NextBuild behind an image that was not accepted."""
+    good = [t for t in anchors if t["id"] not in ANCHOR_MUST_REJECT and t["inp"]["flags"] == "auth" and t["ev"][-1]["ev"] == "Accept"]
+    pair = next(((a, b) for a in good for b in good if a["inp"] != b["inp"] and [e for e in a["ev"] if e["ev"] == "ParseIvt"] != [e for e in b["ev"] if e["ev"] == "ParseIvt"]), None)
+    if pair is None:
+        raise Machinery("no two different authenticated golden images for the history canary")
+    a, b = pair
+    nb = {"ev": "NextBuild", "idx": 2, "proj": "b"}
+    ev = a["ev"] + [nb] + b["ev"]
+    n1 = len(a["ev"])
+    g = {"id": "canary/hist/good", "inps": [a["inp"], b["inp"]], "ev": ev, "meta": {}}
+
+    def mod(name, fn, inps=None):
+        e2 = json.loads(json.dumps(ev))
+        e2 = fn(e2)
+        return {"id": f"canary/hist/bad-{name}", "inps": inps or g["inps"], "ev": e2, "meta": {}}
+
+    def set_last(evn, fld, val):
+        def fn(e2):
+            k = [i for i, e in enumerate(e2) if i >= n1 and e["ev"] == evn and fld in e][-1]
+            e2[k][fld] = val
+            return e2
+        return fn
+
+    def drop_accept_of_first(e2):
+        return [e for i, e in enumerate(e2) if i != n1 - 1]
+
+    bad = [mod("inps-swapped", lambda e2: e2, [b["inp"], a["inp"]]), mod("second-sigOk", set_last("Authenticate", "sigOk", False)),
+           mod("second-certMatch", set_last("InstallKey", "certMatch", False)),
+           mod("second-fuseOk", lambda e2: [dict(e, fuseOk=False) if (i > n1 and "fuseOk" in e) else e for i, e in enumerate(e2)]),
+           mod("idx", set_last("NextBuild", "idx", 1)), mod("second-missing", lambda e2: e2[:n1]),
+           mod("no-nextbuild", lambda e2: e2[:n1] + e2[n1 + 1:]), mod("first-not-accepted", drop_accept_of_first)]
+    return [g] + bad, [("canary/hist", g, True, bad)]
 
 
 def canary_check(batch, groups, rej):
@@ -1073,17 +1184,22 @@ def canary_check(batch, groups, rej):
             continue  # a trace of this run that the R-spec rejects is reported by the normal path
         bad = [b["id"] for b in batch if b["id"].startswith(prefix + "/bad")]
         acc = [i for i in bad if i not in rej]
+        if prefix == "canary/hist" and (rej.get("canary/hist/bad-second-sigOk", (0, 0, ""))[2] != "Authenticate"
+                                        or rej.get("canary/hist/bad-second-missing", (0, 0, ""))[2] != "Accept"):
+            raise Machinery(f"history canary: corrupted histories rejected at an unexpected step: {[(i, rej.get(i)) for i in bad]}")
         if acc or len(bad) < (len(fields) if must and fields is not CANARY_FIELDS else 4):
             raise Machinery(f"canary failed: corrupted copies accepted {acc} ({len(bad)} corrupted copies of {g['id']})")
         n_bad += len(bad)
     n_x = len(XMCD_KIND_CFG)
     n_d = sum(1 for prefix, _g, _m, _f in groups if prefix.startswith("canary/dcd-"))
     return (f"{len(groups)} known-good traces (1 golden image + {n_x} hand-written XMCD traces, one per kind + {n_d} hand-written DCD traces "
-            f"(header only / every command kind, version 0x40) + {len(groups) - 1 - n_x - n_d} of this run), "
+            f"(header only / every command kind, version 0x40) + 1 history of two different golden images + {len(groups) - 2 - n_x - n_d} of this run), "
             f"{n_bad} corrupted copies of the accepted ones rejected")
 
 
 def strip(t):
+    if "inps" in t:
+        return {"id": t["id"], "inps": t["inps"], "ev": t["ev"]}
     return {"id": t["id"], "inp": t["inp"], "ev": t["ev"]}
 
 
@@ -1097,7 +1213,8 @@ def decide(v, traces):
     import fnmatch
 
     for t in traces:
-        t["inp"]["waive"] = []
+        for i in (t["inps"] if "inps" in t else [t["inp"]]):
+            i["waive"] = []
     anchors = anchor_traces()
     cb, groups = canary_batch(traces, anchors)
     mains = [t for t in traces if "/t/" not in t["id"]]
@@ -1125,6 +1242,13 @@ def decide(v, traces):
         for t, (matched, ln, evn) in todo:
             key = finding_key(t, matched)
             e = t["ev"][matched] if matched < ln else {}
+            if "hist" in t["meta"]:  # a history: which image, after which builds
+                h, k = t["meta"]["hist"], min(build_of(t, min(matched, ln - 1)), len(t["meta"]["builds"]) - 1)
+                what = (f"R-spec rejects step {matched + 1}/{ln} ({evn}) of a history of builds in one process: image {k + 1} of {len(h['builds'])} "
+                        f"(projects {'-'.join(h['shape'])}: PKI trees {h['tree']} / {h['tree']}_b with the same file names, keys named by the same relative strings, "
+                        f"key-path variant {h['keyvar']}) built for {json.dumps(h['builds'][k])[:300]}: {json.dumps(e)[:400]}")
+                v.violation(key, what, {"hist": h, "case": h["builds"][k], "image": k + 1, "rejected_at": matched, "event": e, "trace": t["ev"], "inps": t["inps"]})
+                continue
             new = v.violation(key, f"R-spec rejects step {matched + 1}/{ln} ({evn}) of the image built for {json.dumps(t['meta']['case'])[:300]}: {json.dumps(e)[:400]}",
                               {"case": t["meta"]["case"], "rejected_at": matched, "event": e, "trace": t["ev"], "inp": t["inp"]})
             w = next((w for pat, w in WAIVERS if fnmatch.fnmatchcase(key, pat)), None)
@@ -1169,10 +1293,28 @@ def run(tier):
         f"(incl. every parse mutant rejected by the round-trip clause; every XMCD kind x flag and every DCD shape x header version x flag in scope; "
         f"builders that force the DCD version / drop the DCD but keep the IVT pointer rejected at the DCD step)")
 
+    # ---- MC of the history dimension: builders with a memory, two projects with the same file names
+    mh = tlc.mc("C07", "HabHistMC", require_actions=["Build"], timeout=300)
+    if mh.distinct != 9 * (1 + 4 + 16 + 64):  # every history of up to three builds, for every builder
+        raise Machinery(f"HabHistMC explored {mh.distinct} states, expected 765")
+    v.add_mc(mh)
+    say(f"[C07] MC HabHistMC: {mh.distinct} states ({mh.wall:.1f}s), 4 lemmas hold (reference builder isolated; a memory keyed by the unresolved name is invisible to "
+        f"single builds / one-project histories and rejected in every history of the generator's shapes)")
+
     # ---- GEN
-    cases, g = gen_cases(tier)
+    cases, hists, g = gen_cases(tier)
     v.add_mc(g)
-    say(f"[C07] GEN HabGen: {len(cases)} abstract cases ({g.wall:.1f}s)")
+    say(f"[C07] GEN HabGen: {len(cases)} abstract cases + {len(hists)} histories of {sum(len(h['builds']) for h in hists)} builds ({g.wall:.1f}s)")
+    # the history dimension is spanned in EVERY tier: every key tree x every key-path variant in a history that builds project a
+    # and then project b (same relative names, different key files), all builds authenticated or encrypted
+    have_h = {(h["tree"], h["keyvar"]) for h in hists if h["shape"][:2] == ["a", "b"]
+              and all(b["naming"] == "rel" and b["flags"] != "plain" and b["tree"] == h["tree"] and b["src"] == h["src"] for b in h["builds"])}
+    want_h = {(t, kv) for t in hab_keys.K.TREES for kv in ("pk", "sp", "auto")}
+    if want_h - have_h:
+        raise Machinery(f"GEN does not span the history dimension: missing {sorted(want_h - have_h)[:5]}")
+    twins_bad = [t for t in hab_keys.K.TREES if not hab_keys.same_names_different_keys(t)]
+    if twins_bad:
+        raise Machinery(f"twin PKI trees do not have the same file names with different contents: {twins_bad}")
     # every XMCD kind under every flag, from every source, is in the case list of EVERY tier (deterministic, not sampled)
     have = {(c["xmcdKind"], c["flags"], c["xmcdVar"]) for c in cases if c["cfg"] == "xmcd"}
     want = {(k, f, s) for k in XMCD_KIND_CFG for f in ("plain", "auth", "enc") for s in ("golden", "tmpl", "rand")} | \
@@ -1199,29 +1341,42 @@ def run(tier):
     every = 6 if tier == "quick" else 4
     args = [(c, n_t if (c["flags"] != "plain" and c["id"] % every == 0) else 0) for c in cases]
     t0 = v.timer.s()
-    res = pmap(run_case, args, chunksize=4)
-    traces = [t for group in res for t in group]
-    v.count(len(traces))
-    say(f"[C07] executed {len(cases)} builds, {len(traces) - len(cases)} tampered copies ({v.timer.s() - t0:.1f}s)")
+    # histories: every history is built in ONE process (a worker builds its history from the first to the last image); they go
+    # first into the pool, the ones with the biggest keys ahead (the longest tasks), the single builds fill the rest
+    weight = {"rsa4096": 0, "rsa3072": 1, "p521": 2}
+    hsorted = sorted(hists, key=lambda h: (weight.get(h["tree"], 3), -len(h["builds"]), h["hid"]))
+    res = pmap(run_item, [("h", h) for h in hsorted] + [("c", a) for a in args], chunksize=1)
+    traces = [t for group in res[len(hsorted):] for t in group]
+    n_single = len(traces)
+    htraces = sorted((t for group in res[:len(hsorted)] for t in group), key=lambda t: t["meta"]["hist"]["hid"])
+    traces += htraces
+    n_hbuilds = sum(len(t["inps"]) for t in htraces)
+    v.count(n_single + n_hbuilds)
+    say(f"[C07] executed {len(cases)} builds, {n_single - len(cases)} tampered copies, {len(htraces)} histories of {n_hbuilds} builds ({v.timer.s() - t0:.1f}s)")
 
     n_ok, n_wok, n_trej, n_tt = decide(v, traces)
     v.extra["tamper_rejected"] = f"{n_trej}/{n_tt}"
     v.extra["accepted_untampered"] = n_ok
     v.extra["accepted_with_known_clause_waived"] = n_wok
+    v.extra["histories"] = {"n": len(hists), "builds": n_hbuilds, "shapes": sorted({"-".join(h["shape"]) for h in hists}),
+                            "trees": sorted({h["tree"] for h in hists}), "keyvars": sorted({h["keyvar"] for h in hists})}
     for t in traces[:400:97]:
         v.sample({"id": t["id"], "inp": t["inp"], "ev": [{k: (x if not isinstance(x, list) or len(x) < 6 else x[:6]) for k, x in e.items()} for e in t["ev"]][:8]})
     say(f"[C07] TV done at {v.timer.s():.1f}s")
-    say(f"[C07] TV HabRomTrace: {n_ok}/{len(cases)} untampered images accepted (+{n_wok} with a known-finding clause waived), "
+    say(f"[C07] TV HabRomTrace: {n_ok}/{len(cases) + len(hists)} untampered images / histories accepted (+{n_wok} with a known-finding clause waived), "
         f"{n_trej}/{n_tt} tampered images rejected")
     v.cov["rule"] = ("cases = states of HabGen (layout class x application size around the 4 KiB / 16-byte boundaries x plain/auth/enc x "
                      "none/DCD, flags x SHAPE OF THE SUPPLIED DCD (header only = 4 bytes / one Write Data command / several Write Data / several Check Data / "
                      "NOP + Unlock / every kind) x DCD header version (0x40 / 0x41 / another 4.x), and layout class x plain/auth/enc x XMCD kind (FlexSPI RAM simplified 8 / 12 B, SEMC SDRAM simplified 13 B, "
                      "SEMC SDRAM full 72 B, FlexSPI RAM full 516 B, raw header + bytes of 8..516 B) x source of the block (golden / built by "
-                     "SPSDK's XMCD class from its template / random configuration bytes); secondary dimensions spread by index); one evaluation = one image built by HabContainer.load_from_config "
+                     "SPSDK's XMCD class from its template / random configuration bytes); secondary dimensions spread by index) "
+                     "+ HISTORIES of 2..3 authenticated / encrypted builds in one process (key tree x key-path variant x shape a-b / b-a-b / ...: projects a and b are two PKI trees "
+                     "with the same file names and different keys, every build names keys and certificates by the same relative strings resolved through its own "
+                     "search path; every image judged against the material of its own project); one evaluation = one image built by HabContainer.load_from_config "
                      "and walked by the executor (or one single-bit tampered copy); a case is non-trivial if TLC accepted its whole trace "
                      "(every ROM step + SPSDK's own parse)")
     v.cov["exhaustive"] = False
-    v.cov["checker_cmd"] = "TLC HabRomMC (lemmas) ; TLC HabGen (cases) ; TLC HabRomTrace (decides each trace)"
+    v.cov["checker_cmd"] = "TLC HabRomMC (lemmas) ; TLC HabHistMC (lemmas of the history dimension) ; TLC HabGen (cases + histories) ; TLC HabRomTrace (decides each trace)"
     v.extra["trusted_base"] = ["TLC 2 (tla2tools.jar) + CommunityModules (Json, IOUtils)", "hashlib (SHA-256)",
                                "cryptography: RSA PKCS#1 v1.5 / ECDSA verification, X.509 parsing, AESCCM - called directly, never through spsdk.crypto",
                                "asn1crypto: CMS / X.509 DER parsing", "harness/c07.py executor (validated step by step by HabRomTrace: every range it used is recomputed)"]
@@ -1239,6 +1394,10 @@ def run(tier):
         "private keys are unencrypted PEM files (no pass phrase prompt); HAB engine / engine configuration bytes are not asserted",
         "the DEK blob itself is produced on the device and is not part of the image: only its location and the room reserved for it are checked",
         "CMS: one SignerInfo, signed attributes contentType/signingTime/messageDigest; the signing time is not asserted",
+        "histories: every image of a history is judged on its own (ROM walk up to Accept, fresh registers, inputs of its own project); NOT asserted, because the property does "
+        "not state it: that an image built after other builds is byte-identical to the image a fresh process builds, and that a DEK / nonce generated for a build differs "
+        "from the ones of earlier builds (a given DEK / nonce must be the one used, and the DEK file of the build must decrypt - per image); SPSDK's parse-back is judged "
+        "for the single builds only",
     ]
     return v.finish()
 
@@ -1248,9 +1407,15 @@ def replay(path):
     hab_keys.ensure()
     db_lays()
     w = json.load(open(path))["witness"]
-    traces = run_case((w["case"], 0))
-    for t in traces:
-        t["inp"]["waive"] = list(w.get("inp", {}).get("waive", []))
+    if w.get("hist"):  # a history: all its builds again, in this process
+        traces = run_hist(w["hist"])
+        for t in traces:
+            for i in t["inps"]:
+                i["waive"] = []
+    else:
+        traces = run_case((w["case"], 0))
+        for t in traces:
+            t["inp"]["waive"] = list(w.get("inp", {}).get("waive", []))
     rej, _ = tlc.tv("C07", "HabRomTrace", [strip(t) for t in traces])
     for t in traces:
         say(json.dumps({"id": t["id"], "ev": t["ev"]})[:3000])
